@@ -200,7 +200,7 @@ def differential(ses, g, fn, K, seed):
     ok = 0; bad = []; samples = []
     for k in range(K):
         sd = seed * 1000 + k
-        nat = RP.run_native(exe, g.setup + [fn], None, seed=sd)
+        nat = RP.run_native(exe, g.setup + [fn], {('param.' + k): v for k, v in (g.ext.get('params') or {}).items()} or None, seed=sd)
         I = ses.I
         r, w = os.pipe(); pid = os.fork()
         if pid == 0:
@@ -210,7 +210,7 @@ def differential(ses, g, fn, K, seed):
                 res = EX.run_path(I, fn, [], 300)
                 outs = {}
                 for kk, vv in I.outs.items():
-                    try: outs[kk] = float(vv) if not isinstance(vv, str) else vv
+                    try: outs[kk] = (R.to_float(vv) if isinstance(vv, R.RV) else float(vv)) if not isinstance(vv, str) else vv
                     except Exception: outs[kk] = 'sym'
                 data = json.dumps({'status': res['status'], 'msg': res['msg'], 'outs': outs}).encode()
             except BaseException as ex: data = json.dumps({'status': 'internal', 'msg': traceback.format_exc()[-800:], 'outs': {}}).encode()
